@@ -316,11 +316,40 @@ pub fn run(ctx: &Ctx) -> i32 {
     });
 
     // ---- 3. unknown names
-    let nunk = ctx.tier.pick(300u64, 20000u64);
+    let nunk = ctx.tier.pick(1200u64, 40000u64);
     run_workload(ctx, &mut acc, "unknown-names", nunk, |k, rng, acc| {
         let base = *rng.pick(&valid);
         let all_known: BTreeSet<String> = valid.iter().map(|s| s.to_string()).chain(docs.values().flatten().cloned()).collect();
-        let (kind, bad): (&str, String) = match k % 7 {
+        if k % 9 == 8 {
+            // many unknown names at once (the exit status must not depend on how many there are)
+            let count = [2usize, 255, 256, 257, 512, 1024][((k / 9) % 6) as usize];
+            let names: Vec<String> = (0..count).map(|i| format!("no_such_pattern_{}", i)).collect();
+            let (o, v, q): (Vec<String>, Vec<String>, Vec<String>) = match (k / 54) % 3 {
+                0 => (names, vec![], vec![]),
+                1 => (vec!["sstore".to_string()], names, vec![]),
+                _ => {
+                    let third = count / 3;
+                    (names[..third].to_vec(), names[third..2 * third].to_vec(), names[2 * third..].to_vec())
+                }
+            };
+            match run_with_toml(&trigger, &o, &v, &q, true) {
+                Ok((out, cwd)) => {
+                    acc.eval();
+                    acc.cov(&format!("unknown:many:{}", count));
+                    acc.nontrivial_h(hash_str(&format!("many{}{}", count, (k / 54) % 3)));
+                    if out.code == Some(0) {
+                        acc.violation("unknown-accepted:many", json!({"unknown_names": count, "exit_code": out.code}));
+                    } else if out.report.as_deref() != Some(&b"SENTINEL previous report\n"[..]) {
+                        acc.violation("report-written-on-failure", json!({"unknown_names": count, "exit_code": out.code}));
+                    }
+                    let _ = std::fs::remove_dir_all(&cwd);
+                }
+                Err(e) => acc.inconclusive(e),
+            }
+            return;
+        }
+        let (kind, bad): (&str, String) = match k % 8 {
+            7 => ("other-category-and-own", base.to_string()),
             0 => ("typo-delete", {
                 let i = rng.below(base.len());
                 format!("{}{}", &base[..i], &base[i + 1..])
@@ -338,13 +367,13 @@ pub fn run(ctx: &Ctx) -> i32 {
             5 => ("padded", format!(" {} ", base)),
             _ => ("dash-for-underscore", base.replace('_', "-")),
         };
-        if kind != "other-category" && all_known.contains(&bad.to_lowercase()) {
+        if !kind.starts_with("other-category") && all_known.contains(&bad.to_lowercase()) {
             return;
         }
         let (mut o, mut v, mut q) = (vec![], vec![], vec![]);
         // a couple of valid names around the bad one, so that a run that skips the bad name would still produce a report
         o.push("sstore".to_string());
-        let target_cat = if kind == "other-category" {
+        let target_cat = if kind.starts_with("other-category") {
             match category_of(base) {
                 "optimizations" => "vulnerabilities",
                 "vulnerabilities" => "qa",
@@ -357,6 +386,15 @@ pub fn run(ctx: &Ctx) -> i32 {
             "optimizations" => o.insert(rng.below(o.len() + 1), bad.clone()),
             "vulnerabilities" => v.push(bad.clone()),
             _ => q.push(bad.clone()),
+        }
+        if kind == "other-category-and-own" {
+            // the same name is also listed where it belongs (in any letter case): still unknown in the other section
+            let own = if rng.chance(1, 2) { base.to_string() } else { base.to_uppercase() };
+            match category_of(base) {
+                "optimizations" => o.push(own),
+                "vulnerabilities" => v.push(own),
+                _ => q.push(own),
+            }
         }
         let sentinel = rng.chance(1, 2);
         let (out, cwd) = match run_with_toml(&trigger, &o, &v, &q, sentinel) {
@@ -384,7 +422,7 @@ pub fn run(ctx: &Ctx) -> i32 {
     });
 
     // ---- 4. directory precedence
-    let nprec = ctx.tier.pick(80u64, 6000u64);
+    let nprec = ctx.tier.pick(800u64, 12000u64);
     let small = pool.progs.iter().find(|(n, _)| n.contains("Token")).map(|(_, t)| t.clone()).unwrap_or_else(|| pool.progs[0].1.clone());
     run_workload(ctx, &mut acc, "directory-precedence", nprec, |k, rng, acc| {
         let combo = k % 8; // bit0: --path, bit1: --toml, bit2: ./contracts exists
@@ -429,7 +467,17 @@ pub fn run(ctx: &Ctx) -> i32 {
                 acc.cov("precedence:toml-in-sub-directory");
             }
         }
-        let out = match run_solstat(&cwd, &args) {
+        // the environment is not one of the three sources of the directory: variables that look as if they were meant
+        // for solstat, pointing at yet another directory, must not matter
+        let mut envs: Vec<(String, String)> = vec![];
+        if rng.chance(1, 3) {
+            mk("edir", "E1.sol");
+            for n in ["SOLSTAT_PATH", "SOLSTAT_DIR", "SOLSTAT_TOML", "SOLSTAT_CONFIG", "SOLSTAT_CONTRACTS", "CONTRACTS_PATH", "SOLSTAT_OPTIMIZATIONS", "SOLSTAT_VULNERABILITIES", "SOLSTAT_QA", "PATH_TO_CONTRACTS", "CONTRACTS"] {
+                envs.push((n.to_string(), "./edir".to_string()));
+            }
+            acc.cov("precedence:environment-variables-set");
+        }
+        let out = match run_solstat_env(&cwd, &args, &envs) {
             Ok(o) => o,
             Err(e) => {
                 acc.inconclusive(e);
